@@ -10,9 +10,12 @@ import (
 	"fmt"
 	"runtime/debug"
 	"strconv"
+	"strings"
 	"sync"
 	"testing"
+	"time"
 
+	sgbucket "github.com/couchbase/sg-bucket"
 	"pgregory.net/rapid"
 )
 
@@ -37,6 +40,12 @@ func runConcPlan(p concPlan) (devs []Deviation, overlapped bool, err error) {
 		return nil, false, err
 	}
 	defer w.Close()
+	// a live feed that runs through the whole plan: every CAS the workers were handed must arrive
+	// exactly once, in increasing order (C08)
+	feed, ferr := w.StartLiveFeed(FeedCfg{H: 0, C: 0})
+	if ferr != nil {
+		return nil, false, ferr
+	}
 	restore := noiseHook(p.Seed, w.Name)
 	defer restore()
 	var mu sync.Mutex
@@ -154,6 +163,39 @@ func runConcPlan(p concPlan) (devs []Deviation, overlapped bool, err error) {
 		devs = append(devs, Deviation{Clause: "conc.cas.dup", Props: []string{"C04"}, Sig: "conc.cas.dup", Msg: "the same CAS was handed out twice: " + d})
 	}
 	ds := w.Coll(0, 0)
+	// the feed: a sentinel write marks the end (FIFO), then order and completeness
+	if e := ds.SetRaw(sentinelPrefix, 0, nil, []byte("s")); e == nil {
+		_, scas, _ := ds.GetRaw(sentinelPrefix)
+		if !feed.waitCas(scas, 20*time.Second) {
+			devs = append(devs, Deviation{Clause: "conc.feed.dead", Props: []string{"C08", "C16"}, Sig: "conc.feed.dead", Msg: "the live feed never delivered a write made after all workers had finished"})
+		} else {
+			var last uint64
+			got := map[uint64]int{}
+			for _, ev := range feed.take() {
+				if ev.Opcode != sgbucket.FeedOpMutation && ev.Opcode != sgbucket.FeedOpDeletion {
+					continue
+				}
+				if strings.HasPrefix(string(ev.Key), sentinelPrefix) {
+					continue
+				}
+				got[ev.Cas]++
+				if ev.Cas < last {
+					devs = append(devs, Deviation{Clause: "conc.feed.order", Props: []string{"C08"}, Sig: "conc.feed.order", Msg: fmt.Sprintf("the live feed received the event for %q with CAS %#x after an event with CAS %#x: events of one collection arrive out of CAS order under concurrent writers", ev.Key, ev.Cas, last)})
+					break
+				}
+				last = ev.Cas
+			}
+			mu.Lock()
+			for cas, what := range casSeen {
+				if got[cas] != 1 {
+					devs = append(devs, Deviation{Clause: "conc.feed.once", Props: []string{"C08"}, Sig: "conc.feed.once", Msg: fmt.Sprintf("the mutation that was handed CAS %#x (%s) was delivered %d times to the live feed", cas, what, got[cas])})
+					break
+				}
+			}
+			mu.Unlock()
+		}
+	}
+	feed.Stop()
 	for key, n := range success {
 		st, _ := Observe(ds, key, []string{"_sync", "_vv", "_mou"})
 		if !st.Present {
@@ -246,3 +288,4 @@ const concRule = "generated plans of 2-6 goroutines x 3-25 mutations (Set, Touch
 
 func TestC17Race(t *testing.T) { concTest(t, "C17", "TestC17Race", concRule) }
 func TestC04Race(t *testing.T) { concTest(t, "C04", "TestC04Race", concRule) }
+func TestC08Race(t *testing.T) { concTest(t, "C08", "TestC08Race", concRule) }
